@@ -171,6 +171,22 @@ theorem c12_source_constants :
     exact ⟨h1.1, h1.2.1, h1.2.2.1, h1.2.2.2, h2.1, h2.2.1, h2.2.2.1, h2.2.2.2⟩
   · intro m; rw [effective_max_depth_bridge]; rfl
 
+/-- C12 tie of the byte-cursor helpers (byte_buf.c, regenerated with `Gen/XmlConsts.lean`): the guards of
+`aws_byte_cursor_{left,right}_trim_pred`, `aws_byte_cursor_next_split`, `aws_byte_cursor_split_on_char[_n]` and
+`aws_byte_buf_append` as written now are the ones the model's `leftTrim` / `rightTrim` / `splitLoop` /
+`splitOnCharN1` / `bufAppend` implement: trimming loops while the view is non-empty, looking at its first /
+last byte; splitting yields a final empty piece when the input ends in the split character; `n = 0` is
+unlimited, with `n = 1` the second piece takes the rest; an append is refused iff it exceeds the free space. -/
+theorem c12_helper_guards :
+    (XmlConsts.right_trim_is_loop = true ∧ (∀ n, XmlConsts.right_trim_guard n ≠ 0 ↔ 0 < n) ∧
+      (∀ n, 0 < n → n < 2^64 → XmlConsts.right_trim_index n = n - 1)) ∧
+    (XmlConsts.left_trim_is_loop = true ∧ (∀ n, XmlConsts.left_trim_guard n ≠ 0 ↔ 0 < n)) ∧
+    (∀ p e s, XmlConsts.next_split_done p e s ≠ 0 ↔ (p > e ∨ p < s)) ∧
+    (XmlConsts.split_on_char_n_arg = 0 ∧ XmlConsts.split_max 0 = 2^64 - 1 ∧ (∀ n, 0 < n → XmlConsts.split_max n = n) ∧
+      (∀ c m, XmlConsts.split_continue c m ≠ 0 ↔ c ≤ m) ∧ (∀ c m, XmlConsts.split_is_last c m ≠ 0 ↔ c = m)) ∧
+    (∀ cap len n, len ≤ cap → cap < 2^64 → (XmlConsts.append_refused cap len n ≠ 0 ↔ cap - len < n)) :=
+  ⟨right_trim_bridge, left_trim_bridge, next_split_done_bridge, split_n_bridge, append_refused_bridge⟩
+
 /-- verdict of a run, for the concrete examples -/
 def verdict : Except Fault Result → Option (Bool × Nat)
   | .ok r => some (r.ok, r.events.length)
